@@ -6,7 +6,8 @@ lookups of `chaincore/chain/entity.go` built on it (`mbRoundOffset`, `GetMagicBl
 
 * `items` is the Go map `map[int64]RoundStorageEntity` as an association list (at most one pair per key is kept
   by `mapPut`/`mapDel`); an entity is a `Nat` tag (the harness uses the magic block number).
-* `rounds` is the Go slice. `max` is the Go field: raised by `Put`, **never lowered** (not by `Prune` either).
+* `rounds` is the Go slice. `max` is the Go field: raised by `Put`; `Prune` resets it to the last retained round (0 when
+  nothing is left) — repo commit 582e5a1; before that commit `Prune` left it alone (finding C40:stale-max-after-prune).
 * the loops are transcribed as they are coded: `scan`/`scanIdx` = the ascending scan with `break` of
   `calcNearestRound`/`FindRoundIndex`; `putRev` = the descending scan of `putToSlice` (on the reversed slice);
   `splitAt` = the collecting loop of `Prune` (`pruneRounds`, `pruneIndex`).
@@ -92,14 +93,20 @@ def splitAt (p : Int) : List Int → Option (List Int × List Int)
 
 def delAll (ks : List Int) (m : List (Int × Ent)) : List (Int × Ent) := ks.foldl (fun m k => mapDel k m) m
 
-/-- `Prune`: `none` = `ErrRoundEntityNotFound` (state unchanged). -/
+/-- `s.rounds[n-1]`, or `d` for the empty slice. -/
+def lastOr (d : Int) : List Int → Int
+  | [] => d
+  | x :: t => lastOr x t
+
+/-- `Prune`: `none` = `ErrRoundEntityNotFound` (state unchanged). Ends with
+`if n := len(s.rounds); n > 0 { s.max = s.rounds[n-1] } else { s.max = 0 }`. -/
 def prune (s : Store) (p : Int) : Option Store :=
   match mapGet p s.items with
   | none => none
   | some _ =>
     match splitAt p s.rounds with
     | none => none
-    | some (a, b) => some { s with items := delAll a s.items, rounds := b }
+    | some (a, b) => some { max := lastOr 0 b, items := delAll a s.items, rounds := b }
 
 def count (s : Store) : Nat := s.items.length
 
